@@ -17,11 +17,11 @@
 #include <stdlib.h>
 #include <time.h>
 
-enum { EV_LAUNCH_CALL = 1, EV_LAUNCH_RET, EV_FN_ENTER, EV_FN_EXIT, EV_ATEXIT, EV_JOIN_CALL, EV_JOIN_RET, EV_JOINALL_CALL, EV_JOINALL_RET, EV_COUNT };
+enum { EV_LAUNCH_CALL = 1, EV_LAUNCH_RET, EV_FN_ENTER, EV_FN_EXIT, EV_ATEXIT, EV_JOIN_CALL, EV_JOIN_RET, EV_JOINALL_CALL, EV_JOINALL_RET, EV_COUNT, EV_EXT_INC, EV_EXT_DEC };
 
 enum { F_MANAGED, F_MANUAL, F_NESTED_MANAGED, F_ATEXIT_MULTI, F_CREATE_FAILED, F_JOINALL_BEFORE_FINISH, F_JOINALL_AFTER_FINISH, F_NAMED, F_PINNED_RETRY,
        F_MANY_THREADS, F_MANUAL_LAUNCHES_MANAGED, F_STACK_SIZE, F_TIMED_JOINALL_GAVE_UP, F_REINIT_WITH_THREADS_OUTSTANDING,
-       F_TIMED_JOINALL_COMPLETED };
+       F_TIMED_JOINALL_COMPLETED, F_EXTERNAL_PARTICIPANT, F_EXTERNAL_RELEASED_DURING_JOINALL };
 
 #define MAX_T 56
 #define MAX_ATEXIT 5
@@ -41,6 +41,10 @@ struct tdesc {
     int launch_rc; /* written by the launcher after the call */
     int launched;  /* 1 once the launch call has been issued */
     int entered;   /* set (release) by the thread function on entry */
+    bool counted;  /* manual thread that takes part in the managed count through the public increment/decrement pair;
+                      joined and released by an owner thread of the harness, not by main */
+    uint32_t owner_nap_us, owner_gap_us;
+    int owner_lane;
 };
 
 static struct {
@@ -165,6 +169,20 @@ static void generate(struct mon_rng *r) {
         first = last;
         last = S.n;
     }
+    /* up to 3 manual root threads are "externally counted" (thread.h: event-loop threads take part in the count through
+     * aws_thread_increment/decrement_unjoined_count and are joined by their owner) */
+    if (mon_chance(r, 1, 3)) {
+        int want = 1 + (int)mon_below(r, 3);
+        for (int i = 0; i < S.nroots && want > 0; ++i) {
+            struct tdesc *d = &S.t[S.roots[i]];
+            if (!d->managed && mon_chance(r, 1, 2)) {
+                d->counted = true;
+                d->owner_nap_us = (uint32_t)mon_below(r, 1500);
+                d->owner_gap_us = mon_chance(r, 1, 2) ? 0 : (uint32_t)mon_below(r, 600);
+                --want;
+            }
+        }
+    }
     for (int i = 0; i < S.n; ++i) {
         struct tdesc *d = &S.t[i];
         d->natexit = mon_chance(r, 1, 2) ? 0 : (int)mon_below(r, MAX_ATEXIT + 1);
@@ -190,6 +208,7 @@ struct tcheck {
     int last_atexit_k;
     int n_atexit;
     bool launch_returned;
+    uint64_t t_ext_inc, t_ext_dec; /* 0: not seen */
 };
 
 static void check(struct mon_event *ev, size_t n, const struct mon_alloc_stats *st0, bool faults) {
@@ -259,6 +278,15 @@ static void check(struct mon_event *ev, size_t n, const struct mon_alloc_stats *
                                   S.t[e->a].natexit);
                 }
                 break;
+            case EV_EXT_INC:
+                t->t_ext_inc = e->t ? e->t : 1;
+                break;
+            case EV_EXT_DEC:
+                t->t_ext_dec = e->t ? e->t : 1;
+                if (njoinall > njoinall_ret) {
+                    mon_flag(F_EXTERNAL_RELEASED_DURING_JOINALL);
+                }
+                break;
             case EV_JOINALL_CALL:
                 if (njoinall < 8) {
                     joinall_call[njoinall++] = e->t;
@@ -271,6 +299,16 @@ static void check(struct mon_event *ev, size_t n, const struct mon_alloc_stats *
                 uint64_t call_t = joinall_call[njoinall - 1];
                 if (e->b /* timeout configured */ && e->a /* gave up, or result not visible (library clean-up) */) {
                     break;
+                }
+                for (int i2 = 0; i2 < S.n; ++i2) {
+                    /* a participant counted in through aws_thread_increment_unjoined_count before the call: join-all must
+                     * not return before its owner has begun to count it out */
+                    if (c[i2].t_ext_inc && c[i2].t_ext_inc < call_t && !c[i2].t_ext_dec) {
+                        mon_violation("C20:join-all-before-external-release",
+                                      "aws_thread_join_all_managed returned while thread %d, counted in by aws_thread_increment_unjoined_count before the call, had not been "
+                                      "counted out",
+                                      i2);
+                    }
                 }
                 for (int i2 = 0; i2 < S.n; ++i2) {
                     struct tcheck *m = &c[i2];
@@ -333,6 +371,22 @@ static void check(struct mon_event *ev, size_t n, const struct mon_alloc_stats *
     }
 }
 
+static void *owner_main(void *arg) {
+    struct tdesc *d = arg;
+    mon_ev_bind((unsigned)(MAX_T + 2 + d->owner_lane));
+    perturb_bind((unsigned)((d->id + 17) & 31));
+    nap(d->owner_nap_us);
+    mon_ev(EV_JOIN_CALL, (uint64_t)d->id, 0, 0);
+    int rc = aws_thread_join(&d->thread);
+    mon_ev(EV_JOIN_RET, (uint64_t)d->id, (uint64_t)rc, 0);
+    MON_CHECK(rc == AWS_OP_SUCCESS, "C20:join-failed", "aws_thread_join(thread %d) by its owner failed with error %d", d->id, aws_last_error());
+    aws_thread_clean_up(&d->thread);
+    nap(d->owner_gap_us);
+    mon_ev(EV_EXT_DEC, (uint64_t)d->id, 0, 0);
+    aws_thread_decrement_unjoined_count();
+    return NULL;
+}
+
 static void run_case(void) {
     struct mon_rng *r = &mon_case_rng;
     generate(r);
@@ -351,7 +405,7 @@ static void run_case(void) {
     mon_fp((uint64_t)prof_idx * 2 + faults);
     struct mon_alloc_stats st0;
     mon_guard_stats(&st0);
-    mon_ev_reset(MAX_T + 2, 128);
+    mon_ev_reset(MAX_T + 2 + 4, 128);
     mon_ev_bind(0);
     perturb_begin(pseed, &prof);
     perturb_bind(0);
@@ -366,8 +420,30 @@ static void run_case(void) {
     bool timed_prelude = S.flat ? mon_chance(r, 3, 4) : mon_chance(r, 1, 6);
     mon_fp(timed_prelude);
     uint32_t main_nap = mon_chance(r, 1, 2) ? 0 : (uint32_t)mon_below(r, 800);
+    pthread_t owners[4];
+    int nowners = 0;
     for (int i = 0; i < S.nroots; ++i) {
-        launch_one(&S.t[S.roots[i]]);
+        struct tdesc *d = &S.t[S.roots[i]];
+        if (d->counted && nowners < 4) {
+            /* the owner's protocol from thread.h: count first, launch, and give the count back if the launch failed */
+            mon_ev(EV_EXT_INC, (uint64_t)d->id, 0, 0);
+            aws_thread_increment_unjoined_count();
+            launch_one(d);
+            if (d->launch_rc != 0) {
+                mon_ev(EV_EXT_DEC, (uint64_t)d->id, 0, 0);
+                aws_thread_decrement_unjoined_count();
+                d->counted = false;
+            } else if ((d->owner_lane = nowners, perturb_create_harness_thread(&owners[nowners], owner_main, d)) == 0) {
+                ++nowners;
+                mon_flag(F_EXTERNAL_PARTICIPANT);
+            } else {
+                fprintf(stderr, "mon: pthread_create failed\n");
+                exit(2);
+            }
+        } else {
+            d->counted = false;
+            launch_one(d);
+        }
         if (mon_chance(r, 1, 6)) {
             sched_yield();
         }
@@ -439,7 +515,7 @@ static void run_case(void) {
     int no = 0;
     for (int i = 0; i < S.nroots; ++i) {
         struct tdesc *d = &S.t[S.roots[i]];
-        if (!d->managed && d->launch_rc == 0) {
+        if (!d->managed && d->launch_rc == 0 && !d->counted) {
             order[no++] = d->id;
         }
     }
@@ -466,6 +542,9 @@ static void run_case(void) {
     int rc = aws_thread_join_all_managed();
     mon_ev(EV_JOINALL_RET, (uint64_t)rc, 0, 0);
     MON_CHECK(rc == AWS_OP_SUCCESS, "C20:join-all-failed", "aws_thread_join_all_managed returned %d without a timeout configured", rc);
+    for (int i = 0; i < nowners; ++i) {
+        pthread_join(owners[i], NULL);
+    }
     perturb_end();
     mon_watchdog_disarm();
     size_t nev = 0;
@@ -546,7 +625,8 @@ int main(int argc, char **argv) {
     static const char *names[] = {"managed_thread", "manual_thread_joined", "managed_thread_launched_by_thread", "several_at_exit_callbacks", "pthread_create_failed",
                                   "join_all_called_before_all_finished", "join_all_called_after_all_finished", "named_thread", "pinned_launch_with_fault_retry",
                                   "16_or_more_threads", "manual_thread_launched_managed", "explicit_stack_size", "timed_join_all_gave_up",
-                                  "library_reinit_with_managed_threads_outstanding", "timed_join_all_completed"};
+                                  "library_reinit_with_managed_threads_outstanding", "timed_join_all_completed",
+                                  "externally_counted_manual_thread", "external_decrement_while_join_all_blocked"};
     for (int i = 0; i < (int)(sizeof(names) / sizeof(names[0])); ++i) {
         mon_flag_name(i, names[i]);
     }
